@@ -122,9 +122,10 @@ theorem inv_atom (hS : Specs P D) {s s' : St} {i : Nat} {loc : Loc} {ov : Option
       · simp only [Option.some.injEq, Prod.mk.injEq] at h
         rw [← h.1]
         exact inv_local hI hi trivial rfl
-      · simp only [Option.some.injEq, Prod.mk.injEq] at h
+      · rename_i hne
+        simp only [Option.some.injEq, Prod.mk.injEq] at h
         rw [← h.1]
-        exact inv_local hI hi (by simpa [LocOK] using hg) rfl
+        exact inv_local hI hi (by simp only [LocOK]; exact ⟨hg, by simpa using hne⟩) rfl
     · simp only [Option.some.injEq, Prod.mk.injEq] at h
       rw [← h.1]; exact hI
   | tryCas m ver seen =>
@@ -137,6 +138,7 @@ theorem inv_atom (hS : Specs P D) {s s' : St} {i : Nat} {loc : Loc} {ov : Option
       have hroom := s_room hI hi rfl hcap
       simp only [LocOK] at hok
       subst hw
+      have hok := hok.1
       cases m with
       | S =>
         have hx := hS.tgS _ hok
